@@ -321,11 +321,52 @@ Fixpoint replace_all_fuel (fuel : nat) (s old new : string) : string :=
 Definition replace_all (s old new : string) : string :=
   replace_all_fuel (S (String.length s)) s old new.
 
-Fixpoint rewrite_refs (idx : nat) (dst : string) : string :=
+(* the rewriting loop of replaceFunc BEFORE the repair "fix: replace() reads $N as group N"
+   (for idx := NumSubexp; idx > 0; idx-- { ReplaceAll("$idx", "${idx}") }); kept because
+   Proofs/Rewrite.v proves where it agrees with XPath and refutes the rest *)
+Fixpoint rewrite_refs_loop (idx : nat) (dst : string) : string :=
   match idx with
   | 0 => dst
-  | S k => rewrite_refs k (replace_all dst ("$" ++ itoa idx)%string ("${" ++ itoa idx ++ "}")%string)
+  | S k => rewrite_refs_loop k (replace_all dst ("$" ++ itoa idx)%string ("${" ++ itoa idx ++ "}")%string)
   end.
+
+(* rewriteGroupRefs (func.go, after the repair): a single left-to-right pass; "$" followed
+   by digits: the longest prefix of the digits that numbers an existing group (0 = the whole
+   match) becomes "${N}", the remaining digits stay literal; if even the first digit is no
+   group it alone is braced (an empty reference) *)
+Fixpoint best_ref (nsub : nat) (l : string) (val taken : nat) (best : option (nat * nat)) : option (nat * nat) :=
+  match l with
+  | String c r =>
+    if is_digit_ascii c then
+      let val' := val * 10 + (byte_of c - 48) in
+      if Nat.leb val' nsub then best_ref nsub r val' (S taken) (Some (S taken, val')) else best
+    else best
+  | EmptyString => best
+  end.
+
+Fixpoint rewrite_go (fuel nsub : nat) (s : string) : string :=
+  match fuel with
+  | 0 => s
+  | S f =>
+    match s with
+    | EmptyString => EmptyString
+    | String c r =>
+      match r with
+      | String d _ =>
+        if andb (Nat.eqb (byte_of c) 36) (is_digit_ascii d) then
+          let '(n, ref) := match best_ref nsub r 0 0 None with
+                           | Some p => p
+                           | None => (1, byte_of d - 48)
+                           end in
+          ("${" ++ itoa ref ++ "}" ++ rewrite_go f nsub (skipn_s n r))%string
+        else String c (rewrite_go f nsub r)
+      | EmptyString => String c EmptyString
+      end
+    end
+  end.
+
+Definition rewrite_refs (nsub : nat) (dst : string) : string :=
+  rewrite_go (S (String.length dst)) nsub dst.
 
 Definition query_test (q : query) : node -> bool :=
   match q with
